@@ -1486,3 +1486,15 @@ V("rf-c17-generator-helper-no-advance", "C17", "fire", *_e[0], more=_e[1:], rule
 V("rf-c17-manual-counter", "C17", "silent", UT, "        for i, ratio in enumerate(ratios):\n", "        i = -1\n        for ratio in ratios:\n            i += 1\n", what="index kept by hand, incremented first", accept_inconclusive=True)
 V("rf-c17-manual-counter-after", "C17", "silent", UT, "        start = 0\n        for i, ratio in enumerate(ratios):\n", "        start = 0\n        i = 0\n        for ratio in ratios:\n",
   more=[(UT, "            folds[i].append(fold_sample)\n", "            folds[i].append(fold_sample)\n            i += 1\n")], what="index kept by hand, incremented at the end of the body")
+
+for _i in [1, 2, 3, 4, 5, 6, 7, 8, 10, 11, 12, 13, 14, 15, 16, 17, 18, 19, 20]:
+    VARIANTS.append(dict(id="np-operators-c%02d" % _i, prop="C%02d" % _i, expect="silent", rule=None, edits=[("@np_operators",)],
+                         what="a @ b -> np.matmul(a, b), np.eye(n) -> np.identity(n) everywhere"))
+
+for _i in [1, 2, 3, 4, 5, 6, 7, 8, 10, 11, 12, 13, 14, 15, 16, 17, 18, 19, 20]:
+    VARIANTS.append(dict(id="swap-branches-c%02d" % _i, prop="C%02d" % _i, expect="silent", rule=None, edits=[("@swap_branches",)],
+                         what="every if / else written with the negated test and the branches swapped"))
+    VARIANTS.append(dict(id="name-conditions-c%02d" % _i, prop="C%02d" % _i, expect="silent", rule=None, edits=[("@name_conditions",)],
+                         what="if-tests and returned expressions assigned to locals first"))
+    VARIANTS.append(dict(id="ternary-to-if-c%02d" % _i, prop="C%02d" % _i, expect="silent", rule=None, edits=[("@ternary_to_if",)],
+                         what="conditional expressions assigned to a name written as if / else statements"))
